@@ -811,9 +811,13 @@ async fn rig_pieces(ty: &str, npeers: usize, per: u32, seed: u64) -> Result<(u64
         sock.subscribe("").await.map_err(inc)?;
     }
     let peer_ty = crate::sock::peer_type_for(ty).to_string();
+    // the writers keep their connections open until the receiver has everything (a close with
+    // unread data in the writer's own receive buffer is a reset, which discards what the
+    // receiving side had not read yet)
+    let done = std::sync::Arc::new(std::sync::atomic::AtomicBool::new(false));
     let mut tasks = Vec::new();
     for k in 0..npeers {
-        let (ep, peer_ty) = (ep.clone(), peer_ty.clone());
+        let (ep, peer_ty, done) = (ep.clone(), peer_ty.clone(), done.clone());
         tasks.push(tokio::spawn(async move {
             let mut r = Rng::keyed(seed, &[2, 0x71EC, k as u64]);
             let mut raw = Raw::connect(&ep).await.map_err(|e| e.to_string())?;
@@ -834,8 +838,10 @@ async fn rig_pieces(ty: &str, npeers: usize, per: u32, seed: u64) -> Result<(u64
                     }
                 }
             }
-            // keep the connection up until the receiver is done
-            tokio::time::sleep(Duration::from_millis(300)).await;
+            let t0 = std::time::Instant::now();
+            while !done.load(std::sync::atomic::Ordering::SeqCst) && t0.elapsed() < Duration::from_secs(120) {
+                tokio::time::sleep(Duration::from_millis(20)).await;
+            }
             Ok::<u64, String>(pieces)
         }));
     }
@@ -845,7 +851,10 @@ async fn rig_pieces(ty: &str, npeers: usize, per: u32, seed: u64) -> Result<(u64
     while got < total {
         let m = match tokio::time::timeout(WAIT, sock.recv()).await {
             Ok(Ok(m)) => m,
-            Ok(Err(e)) => return Err((format!("C02/rig/recv-error/{ty}"), e)),
+            Ok(Err(e)) => {
+                done.store(true, std::sync::atomic::Ordering::SeqCst);
+                return Err((format!("C02/rig/recv-error/{ty}"), e));
+            }
             Err(_) => {
                 if !rig::canary_ok().await {
                     return Err(inc("receiver starved while the canary was slow".into()));
@@ -868,6 +877,7 @@ async fn rig_pieces(ty: &str, npeers: usize, per: u32, seed: u64) -> Result<(u64
         }
         got += 1;
     }
+    done.store(true, std::sync::atomic::Ordering::SeqCst);
     let mut pieces = 0;
     for t in tasks {
         match tokio::time::timeout(WAIT, t).await {
